@@ -125,6 +125,20 @@ CLAIMED = {
    technique="contract-based deductive verification: frame (assigns-nothing) obligations by a provenance analysis of the real "
              "source + jaxpr-level equality obligations between execution modes, ring normalisation + z3",
    design_ref="DESIGN.md §1.3, §5 C20", note=B_NOTE + " Frame checker assumes library functions return fresh objects; Python-level global state read at trace time is invisible."),
+ "C09": dict(
+   engine="pyvc",
+   text="For the seven batch consumers (times x2, interior, border, observation indices, parameter samples) the real source "
+        "is executed symbolically with z3 integers for n, b, the current index and the RAR counters (no bound on any size): "
+        "the store is only ever replaced by itself or by store o pi, the index update is 'reshuffle iff every active point has "
+        "been served', the batch is the clamped window of the new store, idx + b fits in int32; the epoch lemmas (invariant, "
+        "no repeat when b | n_eff, all served before a reshuffle, reshuffle as soon as all served) are discharged by z3 over "
+        "that step contract; any history of calls follows by the iteration rule.",
+   technique="contract-based deductive verification: source-level VC generation (ast symbolic executor over /repo's text, "
+             "symbolic sizes) discharged by z3; counter-models replayed on the real generators by a native epoch monitor",
+   design_ref="DESIGN.md §1.1, §5 C09",
+   note="Trusted: the Python-subset semantics and jnp/lax models of vf/pyvc.py (mathematical integers + explicit int32 "
+        "obligations; XLA clamping of dynamic_slice), the assumed contract of jax.random.choice (permutation; zero-probability "
+        "rows last) and jax.random.split, the iteration rule, z3. Array rank (dim 1..2) is concrete."),
 }
 PENDING_REASON = "check not built yet (framework under construction); will be claimed once its contracts verify"
 NA = {}
